@@ -33,6 +33,9 @@ pub struct Plan {
     /// random per-packet loss/duplication only happens before this instant
     #[serde(default)]
     pub random_faults_until_us: Option<u64>,
+    /// packet kinds (bit mask over mirror::K_*) that no random loss and no window touches
+    #[serde(default)]
+    pub exempt_kinds: u16,
     #[serde(default)]
     pub oracle: OracleCfg,
 }
